@@ -1,0 +1,26 @@
+//go:build verif
+
+// Add-only hooks for the verification harness in /verif (property C19), third file.
+// No behaviour of the package is changed.
+package app
+
+// HoldMPD takes the mutex that guards the channel's MPD, as a slow MPD write or a concurrent init upload
+// does, and returns the function that releases it. While it is held the channel goroutine waits as soon as
+// it has an MPD to write or derive, and its message queue fills up.
+func (v *VerifReceiver) HoldMPD(chName string) (release func(), ok bool) {
+	ch, found := v.R.channelMgr.GetChannel(chName)
+	if !found {
+		return func() {}, false
+	}
+	ch.mpdMu.Lock()
+	return ch.mpdMu.Unlock, true
+}
+
+// QueueLen is the number of messages waiting for the channel goroutine.
+func (v *VerifReceiver) QueueLen(chName string) int {
+	ch, found := v.R.channelMgr.GetChannel(chName)
+	if !found {
+		return -1
+	}
+	return len(ch.recSegCh)
+}
